@@ -13,6 +13,7 @@ from hypothesis import strategies as st
 from scipy.spatial.transform import Rotation as R
 
 from vf import build, gen, geom
+from vf import core
 from vf.core import Violation, exc_sig
 
 ID = "C04"
@@ -198,9 +199,9 @@ def run_case(case, ctx):
             # condition-aware allowance (see C06): what an 8-ulp displacement of the pixels does
             noise = np.zeros_like(ref)
             for ax in range(3):
-                for sg in (1.0, -1.0):
+                for sg in core.NOISE_STEPS:
                     sh = np.zeros(3)
-                    sh[ax] = sg * 8 * np.finfo(float).eps
+                    sh[ax] = sg
                     try:
                         r_s, _ = reference(sh)
                         noise = np.maximum(noise, np.abs(r_s - ref))
